@@ -1112,6 +1112,29 @@ func (w *World) doSelf(n *node, which uint64) {
 	must(proto.Unmarshal(sm.data, msg))
 	w.logf("selfdeliver %d %s", n.id, raft.DescribeMessage(msg, nil))
 	w.onSelfDeliver(n, msg, &sm.meta)
+	if msg.GetType() == pb.MsgStorageAppendResp && msg.GetTerm() < n.st.Term {
+		w.Stats["stale-append-acks"]++
+		if msg.GetIndex() != 0 {
+			w.Stats["stale-append-acks-with-entries"]++
+			if n.st.Lead == 0 {
+				w.Stats["stale-append-acks-with-entries-while-leaderless"]++
+			}
+			if msg.GetSnapshot() != nil {
+				w.Stats["stale-append-acks-with-entries-and-snapshot"]++
+			}
+			// how close the run comes to the ABA case of newStorageAppendRespMsg:
+			// the acknowledged write has since been overwritten in storage ...
+			if st, err := n.ms.Term(msg.GetIndex()); err == nil && st != msg.GetLogTerm() {
+				w.Stats["stale-append-acks-overwritten-in-storage"]++
+				// ... and the unstable log holds the acknowledged (index, term) again
+				if msg.GetIndex() >= n.st.UnstableOffset {
+					if es := n.rn.VerifEntries(msg.GetIndex(), msg.GetIndex()); len(es) == 1 && es[0].Term == msg.GetLogTerm() {
+						w.Stats["stale-append-acks-aba"]++
+					}
+				}
+			}
+		}
+	}
 	w.call(n, "selfstep", msg, func() { _ = n.rn.Step(msg) })
 	if msg.GetType() == pb.MsgStorageAppendResp && msg.GetSnapshot() != nil {
 		n.snapOutstanding = false
